@@ -567,3 +567,43 @@ Proof.
     intros [H|[H|[H1 H2]]]; [discriminate|discriminate|].
     exfalso. apply E. apply Hden. split; apply ssd_zero_iff_constant; assumption.
 Qed.
+
+(* ================================================================================ run-length encoded sets (large n) *)
+Definition qnat (n : nat) : Qc := Q2Qc (inject_Z (Z.of_nat n)).
+
+Lemma qnat_S n : qnat (S n) = qnat n + 1.
+Proof.
+  unfold qnat, Qcplus. apply Q2Qc_eq_iff. cbn [this Q2Qc]. rewrite Qred_correct.
+  rewrite Nat2Z.inj_succ. unfold Z.succ. rewrite inject_Z_plus. reflexivity.
+Qed.
+
+Lemma qnat_0 : qnat 0 = 0.
+Proof. apply Qc_is_canon. reflexivity. Qed.
+
+Lemma qpos_qnat c : qpos c = qnat (Pos.to_nat c).
+Proof. unfold qpos, qnat. rewrite positive_nat_Z. reflexivity. Qed.
+
+Lemma t_bsum_repeat x n : t_bsum (repeat x n) = (qnat n, qnat n * x, qnat n * (x * x)).
+Proof.
+  rewrite t_bsum_eq. induction n as [|n IH].
+  - cbn [repeat map]. rewrite qlen_nil, !qsum_nil, qnat_0. apply triple_eq; ring.
+  - cbn [repeat map]. rewrite qlen_cons, !qsum_cons, qnat_S.
+    injection IH as E1 E2 E3. rewrite E1, E2, E3. unfold sq. apply triple_eq; ring.
+Qed.
+
+Lemma map_repeat' {A B} (f : A -> B) x n : map f (repeat x n) = repeat (f x) n.
+Proof. induction n as [|n IH]; cbn; [reflexivity|]. rewrite IH. reflexivity. Qed.
+
+Theorem wst_is_expanded j runs : wst j runs = t_bsum (map (rl_val j) (expand runs)).
+Proof.
+  induction runs as [|[row c] runs IH]; [reflexivity|].
+  unfold expand. cbn [flat_map fst snd]. fold (expand runs).
+  rewrite map_app. unfold t_bsum. rewrite (bsum_app st Qc st_zero st_plus contrib st_plus_assoc st_plus_zero_l).
+  fold t_bsum. rewrite <- IH. cbn [wst fold_right fst snd]. fold (wst j runs). f_equal.
+  rewrite map_repeat', t_bsum_repeat. unfold wcontrib. rewrite qpos_qnat. reflexivity.
+Qed.
+
+(* what the large-n check evaluates as the expected result is the definition on the expanded sets *)
+Theorem rl_spec_is_the_spec j r1 r2 :
+  welch_code (wst j r1) (wst j r2) = welch_def (map (rl_val j) (expand r1)) (map (rl_val j) (expand r2)).
+Proof. rewrite !wst_is_expanded, <- !t_upd_zero. apply welch_identity_thm. Qed.
